@@ -25,6 +25,8 @@ def widths(rng, n, family, maxratio=50.0):
     elif family == 'symmetric':
         h = np.exp(rng.uniform(0, math.log(min(maxratio, 8.0)), (n + 1) // 2))
         w = np.concatenate([h, h[:n // 2][::-1]])
+    elif family == 'wild':
+        w = np.exp(rng.uniform(0, math.log(1e6), n))
     elif family == 'jitter':       # almost uniform: relative irregularity 1e-7 .. 1e-5
         w = 1.0 + 10 ** rng.uniform(-7, -5) * rng.uniform(-1, 1, n)
     elif family == 'smooth':
@@ -65,10 +67,16 @@ def axis_faces(rng, kind, n, family, opts=None):
     if kind == 'len':
         L = float(np.exp(rng.uniform(math.log(0.2), math.log(5.0))))
         x0 = 0.0 if rng.random() < 0.5 else float(rng.uniform(-3, 3))
+        if opts.get('x0') == 'offset':
+            x0 = float(rng.choice([-1.0, 1.0]) * 10 ** rng.uniform(3, 5))
+        elif opts.get('x0') == 'negative':
+            x0 = -L - float(rng.uniform(0.1, 4.0))
     elif kind == 'rad':
         L = float(np.exp(rng.uniform(math.log(0.2), math.log(5.0))))
         r0mode = opts.get('r0', 'any')
-        if r0mode == 'zero' or (r0mode == 'any' and rng.random() < 0.4):
+        if opts.get('x0') == 'offset':
+            x0 = float(10 ** rng.uniform(3, 5))
+        elif r0mode == 'zero' or (r0mode == 'any' and rng.random() < 0.4):
             x0 = 0.0
         else:
             x0 = float(np.exp(rng.uniform(math.log(0.05), math.log(3.0))))
@@ -113,6 +121,12 @@ def geo_opts(rng, geo):
         return 'jitter', {}
     if geo == 'int':
         return None, {'intfaces': True}
+    if geo == 'offset':          # far from the origin: x in [1e4, 1e4 + L], r0 ~ 1e4 (differences of large numbers)
+        return None, {'x0': 'offset'}
+    if geo == 'negative':        # Cartesian / axial coordinates entirely below zero
+        return None, {'x0': 'negative'}
+    if geo == 'wild':            # neighbouring cells differing by up to 1e6 in width
+        return 'wild', {}
     return None, {}
 
 
